@@ -69,6 +69,10 @@ func (cr *keyStore) load() error {
 			CausedBy(err)
 	}
 
+	if len(ks.Entries()) == 0 {
+		return errorchain.NewWithMessage(heimdall.ErrConfiguration, "no key material present in the tls key store")
+	}
+
 	var entry *keystore.Entry
 
 	if len(cr.keyID) != 0 {
